@@ -49,6 +49,13 @@ def depth1(tp, tq, with_x):
     # literal on the left-hand side (reflected operators of the facade)
     for rel in ('<', '>=', '=='):
         out.append(('expr', ('bin', rel, ('lit', 1), P_)))
+    # plain value on the left, random field on the right: every relation (the mirrored forms of bound inference)
+    for rel in ref.REL:
+        out.append(('expr', ('bin', rel, ('lit', 2), P_)))
+        out.append(('expr', ('bin', rel, ('ulit', 2, 2), Q_)))
+        if with_x:
+            out.append(('expr', ('bin', rel, X_, P_)))
+            out.append(('expr', ('bin', rel, X_, Q_)))
     rls = [[1], [0, [2, 3]], [[1, 2]], [[1, 6], [3, 4]], [[3, 4], [1, 6]], [[0, 1], [1, 2]], [-1, 1], [[-2, 0]],
            [[2, 1]], [0, 0]]
     if with_x:
